@@ -1,13 +1,132 @@
 /-
-  Driver.OpsC13 — protocol operations for property C13 (filled in by the C13 work package).
-  Contract: `handleC13 op` returns the parser for operation `op` or `none` if `op` is not one of
-  this property's operations.
+  Driver.OpsC13 — protocol operations for property C13.
+
+  c13vtu  <dim> <ptype> <npoints> bits…  <conntype> <nblocks> { <type> <ncells> <k> idx… }
+          <npf> { <name> array }  <ncf> { <name> <type> array }
+          array := <dtype> <rows> <ntail> d… <n> bits…
+      → hyp=<0|1> file=<elements|none> back=<digest|none> spec=<digest|none>
+  c13csv  <ncols> names(hex)…  <nrows> tokens(hex, row-major)…
+      → hyp=<0|1> text=<hex> back=<ncols>:<hex,…>/<row>/…|none
+  c13b64  <hex bytes>      → enc=<text> dec=<hex|none>        (encoder / decoder against the stdlib)
+  c13dec  <text>           → dec=<hex|none>                   (lenient decoder on arbitrary text)
 -/
 import Driver.Proto
-namespace Fc.Drv
+import FcModel.Spec.C13
+import FcModel.Csv
+namespace Fc.Drv.C13
+open Fc.W Fc.Drv
+
+def hexDigit (n : Nat) : Char := if n < 10 then Char.ofNat (48 + n) else Char.ofNat (87 + n)
+
+def hexOfBytes (bs : List Nat) : String :=
+  if bs.isEmpty then "-" else String.ofList (bs.flatMap fun b => [hexDigit (b / 16 % 16), hexDigit (b % 16)])
+
+def hexVal (c : Char) : Option Nat :=
+  let n := c.toNat
+  if 48 ≤ n ∧ n ≤ 57 then some (n - 48) else if 97 ≤ n ∧ n ≤ 102 then some (n - 87) else none
+
+def bytesOfHexChars : List Char → Option (List Nat)
+  | [] => some []
+  | [_] => none
+  | a :: b :: r => do
+    let x ← hexVal a
+    let y ← hexVal b
+    let rest ← bytesOfHexChars r
+    some ((x * 16 + y) :: rest)
+
+def pHex : P (List Nat) := do
+  let t ← tok
+  if t == "-" then pure [] else
+  match bytesOfHexChars t.toList with
+  | some bs => pure bs
+  | none => failure
+
+def pWArr : P WArr := do
+  let dt ← tok
+  let rows ← pNat
+  let tail ← pList pNat
+  let items ← pList pNat
+  pure ⟨dt, rows, tail, items⟩
+
+def pWFields : P WFields := do
+  let dim ← pNat
+  let ptype ← tok
+  let np ← pNat
+  let cs ← pMany pNat (np * dim)
+  let conntype ← tok
+  let nb ← pNat
+  let blocks ← pMany (do
+    let ct ← tok
+    let nc ← pNat
+    let k ← pNat
+    let idx ← pMany pNat (nc * k)
+    pure (ct, (List.range nc).map fun i => (idx.drop (i * k)).take k)) nb
+  let pfs ← pList (do let n ← tok; let a ← pWArr; pure (n, a))
+  let cfs ← pList (do let n ← tok; let ct ← tok; let a ← pWArr; pure (n, ct, a))
+  pure ⟨dim, ptype, (List.range np).map fun i => (cs.drop (i * dim)).take dim, conntype, blocks, pfs, cfs⟩
+
+def joinStr (sep : String) (l : List String) : String := sep.intercalate l
+
+def showNats (l : List Nat) : String := if l.isEmpty then "-" else joinStr "," (l.map toString)
+
+def showText (t : List Nat) : String := if t.isEmpty then "-" else String.ofList (t.map Char.ofNat)
+
+def showElem (sec : String) (e : DataArr) : String :=
+  s!"{sec}|{e.name}|{e.vtk}|{e.ncomps}|{showText e.text}"
+
+def showFile (f : VtuFile) : String :=
+  joinStr ";" ([s!"N|{f.numPoints}|{f.numCells}"] ++ f.pointData.map (showElem "P") ++ f.cellData.map (showElem "C")
+    ++ [showElem "X" f.points, showElem "K" f.conn, showElem "K" f.offsets, showElem "K" f.types])
+
+def showList (sep : String) (l : List String) : String := if l.isEmpty then "-" else joinStr sep l
+
+def showR (r : RFields) : String :=
+  let cells := showList "/" (r.cells.map fun b => s!"{b.1}:{showList "_" (b.2.map showNats)}")
+  let pf := showList "/" (r.pf.map fun f => s!"{f.name}:{f.dt}:{f.ncomps}:{showNats f.items}")
+  let cf := showList "/" (r.cf.map fun f =>
+    s!"{f.name}:{f.dt}:{f.ncomps}:{showList "+" (f.perType.map fun p => s!"{p.1}={showNats p.2}")}")
+  s!"pts={r.ptype}:{showNats r.points};cells={cells};pf={pf};cf={cf}"
+
+def opC13Vtu : P String := do
+  let F ← pWFields
+  let hyp := Spec.hyp F
+  let file := writeVtu id F
+  let back := file.bind readVtu
+  let spec := Spec.normalise F
+  let sh {α} (f : α → String) (o : Option α) : String := match o with | some x => f x | none => "none"
+  pure s!"hyp={showBool hyp} file={sh showFile file} back={sh showR back} spec={sh showR spec}"
+
+def opC13Csv : P String := do
+  let names ← pList pHex
+  let nrows ← pNat
+  let cells ← pMany pHex (nrows * names.length)
+  let rows := (List.range nrows).map fun i => (cells.drop (i * names.length)).take names.length
+  let text := csvWrite names rows
+  let back := match csvRead text with
+    | none => "none"
+    | some (ns, rs) =>
+      joinStr "/" ((ns :: rs).map fun (r : List Token) => joinStr "," (r.map hexOfBytes))
+  pure s!"hyp={showBool (csvHyp names rows)} text={hexOfBytes text} back={back}"
+
+def opC13B64 : P String := do
+  let bs ← pHex
+  let enc := b64enc bs
+  let dec := match b64dec enc with | some d => hexOfBytes d | none => "none"
+  pure s!"enc={showText enc} dec={dec}"
+
+def opC13Dec : P String := do
+  let t ← tok
+  let cs := if t == "-" then [] else t.toList.map Char.toNat
+  pure s!"dec={match b64dec cs with | some d => hexOfBytes d | none => "none"}"
 
 def handleC13 (op : String) : Option (P String) :=
   match op with
+  | "c13vtu" => some opC13Vtu
+  | "c13csv" => some opC13Csv
+  | "c13b64" => some opC13B64
+  | "c13dec" => some opC13Dec
   | _ => none
 
-end Fc.Drv
+end Fc.Drv.C13
+
+def Fc.Drv.handleC13 := Fc.Drv.C13.handleC13
